@@ -26,6 +26,11 @@ class ToolError(Exception):
     """The machinery itself failed (exit 2); never a verdict about the code."""
 
 
+class HarnessHang(Exception):
+    """The code under test never finished opening a connection (handshake hang): counts
+    against whatever property is being explored, like every other hang."""
+
+
 def log(*a):
     print(*a, flush=True)
 
@@ -65,6 +70,9 @@ def run_vh(args, timeout=600, check=True, env=None, bin="vh"):
                            stderr=subprocess.PIPE, text=True, timeout=timeout, env=e)
     except subprocess.TimeoutExpired:
         raise ToolError("harness timed out: vh %s" % " ".join(map(str, args)))
+    if p.returncode == 97 and "OPENHANG" in p.stderr:
+        # session.rs: Connection::open never returned over the mock transport
+        raise HarnessHang("%s %s: %s" % (bin, " ".join(map(str, args)), p.stderr.strip().splitlines()[-1]))
     if check and p.returncode != 0:
         sys.stdout.write(p.stdout[-3000:])
         sys.stdout.write(p.stderr[-3000:])
